@@ -47,7 +47,10 @@ func (s *c06State) closeReturned(err error) {
 // c06Scenario: a running router (entered through RunHandlers on a router marked running) with one
 // handler on a scripted subscriber; the environment emits nMsgs messages, releases the handler at an
 // arbitrary moment and calls Close from nClosers goroutines at arbitrary moments.
-func c06Scenario(nMsgs, nClosers int, panicking bool) {
+func c06Scenario(nMsgs, nClosers int, panicking bool) { c06ScenarioN(nMsgs, nClosers, panicking, 1) }
+
+// c06ScenarioN: every closer calls Close `repeat` times in a row.
+func c06ScenarioN(nMsgs, nClosers int, panicking bool, repeat int) {
 	r, err := NewRouter(RouterConfig{CloseTimeout: 0}, watermill.NopLogger{})
 	vrt.Assert(err == nil, "router")
 	st := &c06State{}
@@ -87,8 +90,12 @@ func c06Scenario(nMsgs, nClosers int, panicking bool) {
 	for i := 0; i < nClosers; i++ {
 		go func() {
 			vrt.MustFinish()
-			err := r.Close()
-			st.closeReturned(err)
+			var err error
+			for k := 0; k < repeat; k++ {
+				err = r.Close()
+				vrt.Tag("close.call", k)
+				st.closeReturned(err)
+			}
 			if err == nil {
 				vrt.Assert(sub.closed, "when Close returns nil the handler's subscriber has been closed")
 				// every emitted message: handled to completion and settled, or never handled and never acked
@@ -120,6 +127,7 @@ func HarnessC06OneMsgOneCloser()  { c06Scenario(1, 1, false) }
 func HarnessC06OneMsgTwoClosers() { c06Scenario(1, 2, false) }
 func HarnessC06TwoMsgs()          { c06Scenario(2, 1, false) }
 func HarnessC06Panicking()        { c06Scenario(1, 1, true) }
+func HarnessC06CloseTwice()       { c06ScenarioN(1, 1, false, 2) }
 
 // HarnessC06Run: Run returns only after the close has completed (never while Close is still waiting).
 func HarnessC06Run() {
